@@ -64,7 +64,7 @@ def client_partial(e4, srv, res, ev, go):
     r["established"] = time.monotonic()
     ev["partial"].set()
     go.wait(30)
-    time.sleep(0.2)
+    time.sleep(res.get("_partial_delay", 0.2))
     try:
         s.sendall(b"ection: close\r\n\r\n")
         r["rest_sent"] = time.monotonic()
@@ -80,8 +80,8 @@ def client_partial(e4, srv, res, ev, go):
         s.close()
 
 
-def client_request(e4, srv, res, name, path):
-    r = e4.request(srv.addr, path, timeout=30)
+def client_request(e4, srv, res, name, path, addr=None):
+    r = e4.request(addr or srv.addr, path, timeout=30)
     r["phase"] = name
     res[name] = r
 
@@ -138,16 +138,18 @@ def run_scenario(run, e4, sc):
         if not os.path.exists(settings["pidfile"]):
             v.append(("pidfile-not-created", "pid file missing while the master runs"))
         res, ev, threads = {}, {p: threading.Event() for p in PHASES}, []
+        res["_partial_delay"] = sc.get("partial_delay", 0.2)
         go = threading.Event()
         tag = "%08x" % (hash((wc, signame, sc["bind"], tuple(phases), sc["seed"])) & 0xffffffff)
         if "idle" in phases:
             threads.append(threading.Thread(target=client_idle, args=(e4, srv, res, ev)))
         if "partial" in phases:
             threads.append(threading.Thread(target=client_partial, args=(e4, srv, res, ev, go)))
+        busy_addr = srv.addr2 if (sc["bind"] == "both" and sc.get("busy_on") == "unix") else srv.addr
         if "app" in phases:
-            threads.append(threading.Thread(target=client_request, args=(e4, srv, res, "app", "/gate/a" + tag)))
+            threads.append(threading.Thread(target=client_request, args=(e4, srv, res, "app", "/gate/a" + tag, busy_addr)))
         if "stream" in phases:
-            threads.append(threading.Thread(target=client_request, args=(e4, srv, res, "stream", "/stream/s" + tag)))
+            threads.append(threading.Thread(target=client_request, args=(e4, srv, res, "stream", "/stream/s" + tag, busy_addr)))
         if "keepalive" in phases:
             threads.append(threading.Thread(target=client_keepalive, args=(e4, srv, res, ev)))
         for t in threads:
@@ -212,7 +214,7 @@ def run_scenario(run, e4, sc):
             run.count("listener_closed_checks")
         if os.path.exists(settings["pidfile"]):
             v.append(("pidfile-left-behind", "pid file still present after exit"))
-        if sc["bind"] == "unix" and os.path.exists(srv.sockpath):
+        if sc["bind"] in ("unix", "both") and os.path.exists(srv.sockpath):
             v.append(("unix-socket-file-left-behind", "socket file still present after exit"))
         timing_inconclusive = None
         if late:
@@ -229,6 +231,8 @@ def run_scenario(run, e4, sc):
             if r is None:
                 continue
             cell = "%s/%s/%s" % (p, wc, signame)
+            if sc["bind"] == "both":
+                run.count("two_listener_in_flight_checks")
             run.count("cell/" + cell)
             if p == "idle":
                 # no request in progress: closed without a byte, or (quick shutdown interrupts the read) a complete
@@ -275,6 +279,14 @@ def scenarios(tier, seed):
     for wc in classes:
         out.append({"class": wc, "signal": "TERM", "bind": "tcp", "graceful": 2, "phases": ["app", "stream"],
                     "duration": rng.choice(["overruns", "never"])})
+    # the rest of a partly received head arrives late (after the worker has noticed the TERM), still within graceful_timeout
+    for wc in classes:
+        out.append({"class": wc, "signal": "TERM", "bind": rng.choice(["tcp", "unix"]), "graceful": 4, "phases": ["partial", "app"],
+                    "duration": "finishes", "app_delay": 2.0, "partial_delay": rng.choice([1.3, 1.8, 2.4])})
+    # two listeners, the request in flight on one of them while the other is idle
+    for wc in classes:
+        out.append({"class": wc, "signal": "TERM", "bind": "both", "graceful": 5, "phases": ["app", "stream"],
+                    "duration": "finishes", "app_delay": rng.choice([1.5, 2.5]), "busy_on": rng.choice(["tcp", "unix"])})
     if tier == "thorough":
         for s2 in range(5):
             r2 = rng_for(seed, "c04-thorough", s2)
@@ -302,7 +314,7 @@ def shard(sh):
         if reason is None or v:
             break
         run.count("retries_after_inconclusive")
-    run.case(json.dumps({k: sc[k] for k in ("class", "signal", "bind", "phases", "duration", "graceful")}, sort_keys=True))
+    run.case(json.dumps({k: sc.get(k) for k in ("class", "signal", "bind", "phases", "duration", "graceful", "partial_delay", "busy_on")}, sort_keys=True))
     run.count("scenarios")
     run.count("class/" + sc["class"])
     run.count("signal/" + sc["signal"])
@@ -319,7 +331,8 @@ def main(tier, seed):
     run = Run(PROP, tier, seed, "exploration", RULE)
     run.require("scenarios", "in_flight_answered", "listener_closed_checks", "class/sync", "class/gthread", "class/gevent",
                 "class/eventlet", "signal/TERM", "signal/INT", "bind/tcp", "bind/unix",
-                "cell/partial/sync/TERM", "cell/app/gthread/TERM", "cell/stream/gevent/TERM", "cell/app/eventlet/TERM")
+                "cell/partial/sync/TERM", "cell/app/gthread/TERM", "cell/stream/gevent/TERM", "cell/app/eventlet/TERM",
+                "two_listener_in_flight_checks")
     scs = scenarios(tier, seed)
     shards = [{"scenario": sc, "seed": seed, "tier": tier} for sc in scs]
     run.assumptions = [
